@@ -39,7 +39,7 @@ REQUIRED_REACH = ["facet-opposite-direction", "facet-different-slot", "hdiv-orie
                   "hcurl-orient-both-signs", "curved-mesh", "docs-mesh", "quad-shifted", "hex-rotated",
                   "derived-mesh", "derived-mesh:adaptive", "first-order-simplices-in-given-local-order",
                   "derived-directed:adaptive", "derived-directed:used-elsewhere", "derived-directed:uniform",
-                  "derived-directed:used-oriented", "derived-mesh:parent-tables-in-use",
+                  "derived-directed:used-oriented", "derived-mesh:parent-tables-in-use", "one-element-object-on-both-sides",
                   "prism-faces-of-both-kinds"]
 
 
@@ -354,9 +354,13 @@ def check_mesh_elem(ctx, mc, rec, tag_extra=None, only_nvf=None):
     # ---- path (i): InteriorFacetBasis on both sides
     if rec.facet_basis and kind != "wedge" and kind != "line":
         try:
-            fb0 = skfem.InteriorFacetBasis(mesh, rec.make(), facets=itf, side=0)
-            fb1 = skfem.InteriorFacetBasis(mesh, rec.make(), facets=itf, side=1,
+            # ONE element object for both sides, as a caller writes it (the two bases evaluate it at point sets of equal
+            # shape that differ only partly: tables an element keeps between calls must follow)
+            e_both = rec.make()
+            fb0 = skfem.InteriorFacetBasis(mesh, e_both, facets=itf, side=0)
+            fb1 = skfem.InteriorFacetBasis(mesh, e_both, facets=itf, side=1,
                                            quadrature=(fb0.X, fb0.W))
+            ctx.reached("one-element-object-on-both-sides")
         except NotImplementedError:
             ctx.drop("facet-basis-not-implemented")
             return
@@ -538,9 +542,13 @@ def derived(ctx, rng, mc, op=None):
     ctx.reached("derived-mesh")
     kind2 = {"to_meshtri": "tri", "to_meshtri-x": "tri", "to_meshtet": "tet"}.get(op, kind)
     unsorted = kind2 in ("tri", "tet") and not (np.diff(np.asarray(m2.t), axis=0) > 0).all()
+    # cells in a local order the CALLER asked for (oriented(), sort_t=False) - as opposed to an unsorted mesh that a library
+    # operation returns from a default-constructed one, which every element must be able to use
+    by_caller = unsorted and (op in ("oriented", "unsorted") or bool(mc.desc.get("unsorted_by_caller")))
     if op in ("oriented", "unsorted") and unsorted:
         ctx.reached("first-order-simplices-in-given-local-order")
-    return G.MeshCase(m2, kind2, 1, dict(mc.desc, derived=op_full, ncells=int(m2.t.shape[1]), unsorted_first_order=bool(unsorted and kind2 == "tri")),
+    return G.MeshCase(m2, kind2, 1, dict(mc.desc, derived=op_full, ncells=int(m2.t.shape[1]), unsorted_first_order=bool(unsorted and kind2 == "tri"),
+                           unsorted_by_caller=bool(by_caller and kind2 == "tri")),
                       affine_cells=(True if kind2 != kind else mc.affine_cells), straight=True, planar_faces=mc.planar_faces)
 
 
@@ -619,7 +627,7 @@ def gen_case(kind):
             if not alt:
                 raise Skip("no-element-for-the-split-mesh")
             rec = alt[int(rng.integers(len(alt)))]
-        if mc.desc.get("unsorted_first_order"):
+        if mc.desc.get("unsorted_by_caller"):
             # the caller's explicit choice (sort_t=False / oriented()): the statement keeps these meshes for elements
             # with at most one DOF per facet and edge
             e_ = rec.make()
@@ -662,7 +670,7 @@ def derived_directed(ctx, k):
     mc2 = derived(ctx, rng, mc, op=op)
     if mc2 is mc:
         raise Skip("derived-operation-not-applied")
-    if mc2.desc.get("unsorted_first_order"):
+    if mc2.desc.get("unsorted_by_caller"):
         # oriented(): cells in the caller's local order; the statement keeps these meshes for elements with at most one
         # DOF per facet and edge (see gen_case), so the operation is paired with those
         e_ = rec.make()
